@@ -1305,6 +1305,17 @@ class RoutingParameter:
         return group_names[0] if group_names else self.field
 
     @property
+    def disambiguated_field(self) -> str:
+        """Return the field as an attribute path on the generated request.
+
+        Every segment that is a reserved name carries a trailing underscore.
+        """
+        return ".".join(
+            segment + "_" if segment in utils.RESERVED_NAMES else segment
+            for segment in self.field.split(".")
+        )
+
+    @property
     def sample_request(self) -> str:
         """return json dict for sample request matching the uri template."""
         sample = uri_sample.sample_from_path_template(self.field, self.path_template)
